@@ -221,6 +221,9 @@ static bool the_callback(const char *filename, const void *data) {
   c->cb_verdict[c->cb_nlog] = verdict;
   c->cb_dataok[c->cb_nlog] = ok;
   c->cb_nlog++;
+  /* the caller's code leaves errno as its own calls left it: "no such file" after a refusal (the usual access() test that failed),
+     varying values after an acceptance - nothing of it is the library's business */
+  { static const int left[3] = { ENOENT, 0, EACCES }; errno = verdict ? left[c->cb_calls % 3] : ENOENT; }
   return verdict;
 }
 static void cb_clearlog(struct ctx *c) {
